@@ -50,3 +50,110 @@ Theorem C03_exec_grad_refines (K : fieldType) (D : nat) (t : tape (seq K)) outs 
              (R_gradient_like (recipP D) (unvalP D) (unpartP D) (map (@nodeP K) t) outs (map Poly xs) (map Poly ybars)).
 Proof. exact: X_grad_refines. Qed.
 Print Assumptions C03_exec_grad_refines.
+
+(* ---- array-level reverse rules (MatPullback.v).  For EVERY commutative ring R (in particular R = K[t]/(t^D): all Taylor orders at
+   once) and the pairing <A, B> = tr(A^T B): each matrix rule, as utpm.py / algorithms.py code it, is the transpose of the
+   operation's differential; the differentials themselves are justified by first-order expansions with a nilpotent scalar eps
+   (eps * eps = 0), including Jacobi's formula for the determinant. *)
+From AlgoV Require Import MatPullback.
+Theorem C03_dot_differential (R : comRingType) (eps : R) m n k (X dX : 'M[R]_(m, n)) (Y dY : 'M[R]_(n, k)) : eps * eps = 0 ->
+  (X + eps *: dX) *m (Y + eps *: dY) = X *m Y + eps *: (dX *m Y + X *m dY).
+Proof. move=> e2; exact: dot_expand. Qed.
+Theorem C03_inv_differential (R : comRingType) (eps : R) n (A Y dA : 'M[R]_n) : eps * eps = 0 ->
+  A *m Y = 1%:M -> Y *m A = 1%:M -> (A + eps *: dA) *m (Y - eps *: (Y *m dA *m Y)) = 1%:M.
+Proof. move=> e2; exact: inv_expand. Qed.
+Theorem C03_solve_differential (R : comRingType) (eps : R) n k (A Ai dA : 'M[R]_n) (Y X dX : 'M[R]_(n, k)) : eps * eps = 0 ->
+  A *m Ai = 1%:M -> Ai *m A = 1%:M -> A *m Y = X ->
+  (A + eps *: dA) *m (Y + eps *: (Ai *m (dX - dA *m Y))) = X + eps *: dX.
+Proof. move=> e2; exact: solve_expand. Qed.
+Theorem C03_det_differential (R : comRingType) (eps : R) n (A V : 'M[R]_n) : eps * eps = 0 ->
+  \det (A + eps *: V) = \det A + eps * \tr (\adj A *m V).
+Proof. move=> e2; exact: det_expand. Qed.
+Theorem C03_pb_dot_adjoint (R : comRingType) m n k (X dX : 'M[R]_(m, n)) (Y dY : 'M[R]_(n, k)) (Zbar : 'M[R]_(m, k)) :
+  ip Zbar (dX *m Y + X *m dY) = ip (Zbar *m Y^T) dX + ip (X^T *m Zbar) dY.
+Proof. exact: pb_dot. Qed.
+Theorem C03_pb_outer_adjoint (R : comRingType) m n (x dx : 'cV[R]_m) (y dy : 'cV[R]_n) (Zbar : 'M[R]_(m, n)) :
+  ip Zbar (dx *m y^T + x *m dy^T) = ip (Zbar *m y) dx + ip (Zbar^T *m x) dy.
+Proof. exact: pb_outer. Qed.
+Theorem C03_pb_inv_adjoint (R : comRingType) n (Y dA Ybar : 'M[R]_n) :
+  ip Ybar (- (Y *m dA *m Y)) = ip (- (Y^T *m (Ybar *m Y^T))) dA.
+Proof. exact: pb_inv. Qed.
+Theorem C03_pb_solve_adjoint (R : comRingType) n k (Ai dA : 'M[R]_n) (Y dX Ybar : 'M[R]_(n, k)) :
+  let Tbar := - (Ai^T *m Ybar) in
+  ip Ybar (Ai *m (dX - dA *m Y)) = ip (Tbar *m Y^T) dA + ip (- Tbar) dX.
+Proof. exact: pb_solve. Qed.
+Theorem C03_pb_trace_adjoint (R : comRingType) n (ybar : R) (dX : 'M[R]_n) : ybar * \tr dX = ip (ybar *: 1%:M) dX.
+Proof. exact: pb_trace. Qed.
+Theorem C03_pb_transpose_adjoint (R : comRingType) m n (Ybar : 'M[R]_(n, m)) (dX : 'M[R]_(m, n)) : ip Ybar dX^T = ip Ybar^T dX.
+Proof. exact: pb_transpose. Qed.
+Theorem C03_pb_det_adjoint (R : comRingType) n (ybar : R) (A Ai V : 'M[R]_n) : A *m Ai = 1%:M -> Ai *m A = 1%:M ->
+  ybar * \tr (\adj A *m V) = ip ((ybar * \det A) *: Ai^T) V.
+Proof. exact: pb_det. Qed.
+Theorem C03_pb_logdet_adjoint (R : comRingType) n (ybar : R) (Ai V : 'M[R]_n) : ybar * \tr (Ai *m V) = ip (ybar *: Ai^T) V.
+Proof. exact: pb_logdet. Qed.
+(* the executable rules (list matrices over series, MatPullbackExec.v -- what the correspondence check runs) are the Cauchy products
+   of the abstract rules *)
+From AlgoV Require Import Matrix MatrixSpec MatPullbackExec.
+Theorem C03_pb_dotU_x_refines (K : fieldType) n m k (zbar y : seq (mx K)) d : (d < size zbar)%N ->
+  mx_of n m (nth [::] (pb_dotU_x n m k zbar y) d) =
+  \sum_(c < d.+1) mx_of n k (nth [::] zbar c) *m (mx_of m k (nth [::] y (d - c)))^T.
+Proof. exact: pb_dotU_x_refines. Qed.
+Theorem C03_pb_dotU_y_refines (K : fieldType) n m k (x zbar : seq (mx K)) d : (d < size x)%N ->
+  mx_of m k (nth [::] (pb_dotU_y n m k x zbar) d) =
+  \sum_(c < d.+1) (mx_of n m (nth [::] x c))^T *m mx_of n k (nth [::] zbar (d - c)).
+Proof. exact: pb_dotU_y_refines. Qed.
+Theorem C03_pb_invU_refines (K : fieldType) n (ybar y : seq (mx K)) d : (d < size y)%N -> (d < size ybar)%N ->
+  mx_of n n (nth [::] (pb_invU n ybar y) d) =
+  - \sum_(c < d.+1) (mx_of n n (nth [::] y c))^T *m
+       \sum_(e < (d - c).+1) mx_of n n (nth [::] ybar e) *m (mx_of n n (nth [::] y (d - c - e)))^T.
+Proof. exact: pb_invU_refines. Qed.
+Print Assumptions C03_dot_differential.
+Print Assumptions C03_inv_differential.
+Print Assumptions C03_solve_differential.
+Print Assumptions C03_det_differential.
+Print Assumptions C03_pb_dot_adjoint.
+Print Assumptions C03_pb_outer_adjoint.
+Print Assumptions C03_pb_inv_adjoint.
+Print Assumptions C03_pb_solve_adjoint.
+Print Assumptions C03_pb_trace_adjoint.
+Print Assumptions C03_pb_transpose_adjoint.
+Print Assumptions C03_pb_det_adjoint.
+Print Assumptions C03_pb_logdet_adjoint.
+Print Assumptions C03_pb_dotU_x_refines.
+Print Assumptions C03_pb_dotU_y_refines.
+Print Assumptions C03_pb_invU_refines.
+
+(* ---- reverse rules of the FACTORIZATIONS (MatPullbackFact.v): a factorization's differential is defined by linearised constraints, so
+   each theorem quantifies over ALL tangent tuples satisfying them; the rule as coded (pb_lu, _pb_cholesky, _qr_rectangular_pullback,
+   square full rank) is the adjoint.  Inverses are given as matrices with their defining equations. *)
+From AlgoV Require Import MatrixFact MatPullbackFact.
+Theorem C03_pb_lu_adjoint (K : fieldType) (n : nat) (W L U Li Ui Lbar Ubar dL dU : 'M[K]_n) :
+  W^T *m W = 1%:M -> L *m Li = 1%:M -> Li *m L = 1%:M -> U *m Ui = 1%:M -> Ui *m U = 1%:M ->
+  is_lower Li -> is_upper Ui -> is_strict_lower dL -> is_upper dU ->
+  let v1 := tril1M (L^T *m Lbar) + triuM (Ubar *m U^T) in
+  let v3 := Li^T *m v1 *m Ui^T in
+  let Abar := W *m v3 in
+  let dA := W *m (dL *m U + L *m dU) in
+  ip Lbar dL + ip Ubar dU = ip Abar dA.
+Proof. exact: pb_lu_adjoint. Qed.
+Theorem C03_pb_cholesky_adjoint (K : fieldType) (n : nat) : (2%:R : K) != 0 ->
+  forall L Li Lbar dL : 'M[K]_n,
+  L *m Li = 1%:M -> Li *m L = 1%:M -> is_lower Li -> is_lower dL ->
+  let Phi := lowhalfM (L^T *m Lbar) in
+  let Sym := 2%:R^-1 *: (Phi^T + Phi) in
+  let Abar := Li^T *m Sym *m Li in
+  let dA := dL *m L^T + L *m dL^T in
+  ip Lbar dL = ip Abar dA.
+Proof. exact: pb_cholesky_adjoint. Qed.
+Theorem C03_pb_qr_adjoint (K : fieldType) (n : nat) : (2%:R : K) != 0 ->
+  forall Q R Ri Qbar Rbar dQ dR : 'M[K]_n,
+  Q^T *m Q = 1%:M -> Q *m Q^T = 1%:M -> R *m Ri = 1%:M -> is_upper Ri ->
+  (Q^T *m dQ)^T = - (Q^T *m dQ) -> is_upper dR ->
+  let V := Qbar^T *m Q - R *m Rbar^T in
+  let Abar := Q *m (Rbar + tril1M (V^T - V) *m Ri^T) in
+  let dA := dQ *m R + Q *m dR in
+  ip Qbar dQ + ip Rbar dR = ip Abar dA.
+Proof. exact: pb_qr_adjoint. Qed.
+Print Assumptions C03_pb_lu_adjoint.
+Print Assumptions C03_pb_cholesky_adjoint.
+Print Assumptions C03_pb_qr_adjoint.
